@@ -134,65 +134,16 @@ class EarliestStartTimeObserver(FeatureObserver):
         Args:
             scheduled_operation: The operation that has been scheduled.
         """
-        # We compute the gap that the current scheduled operation could be
-        # adding to each job.
-        job_id = scheduled_operation.job_id
-        next_operation_idx = self.dispatcher.job_next_operation_index[job_id]
-        if next_operation_idx < len(self.dispatcher.instance.jobs[job_id]):
-            old_start_time = self.earliest_start_times[
-                job_id, next_operation_idx
-            ]
-            next_operation = self.dispatcher.instance.jobs[job_id][
-                next_operation_idx
-            ]
-            new_start_time = max(
-                scheduled_operation.end_time,
-                old_start_time,
-                self.dispatcher.earliest_start_time(next_operation),
-            )
-            gap = new_start_time - old_start_time
-            self.earliest_start_times[job_id, next_operation_idx:] += gap
-
-        # Now, we compute the gap that could be introduced by the new
-        # next_available_time of the machine.
-        machine_ops = self.dispatcher.instance.operations_by_machine[
-            scheduled_operation.machine_id
-        ]
-        unscheduled_mask = np.array(
-            [not self.dispatcher.is_scheduled(op) for op in machine_ops]
-        )
-        if np.any(unscheduled_mask):
-            if self._job_ids.size == 0:
-                job_ids = np.array([op.job_id for op in machine_ops])[
-                    unscheduled_mask
-                ]
-            else:
-                job_ids = self._job_ids[scheduled_operation.machine_id][
-                    unscheduled_mask
-                ]
-
-            if self._positions.size == 0:
-                positions = np.array(
-                    [op.position_in_job for op in machine_ops]
-                )[unscheduled_mask]
-            else:
-                positions = self._positions[scheduled_operation.machine_id][
-                    unscheduled_mask
-                ]
-            old_start_times = self.earliest_start_times[job_ids, positions]
-            new_start_times = np.maximum(
-                scheduled_operation.end_time, old_start_times
-            )
-            gaps = new_start_times - old_start_times
-
-            for job_id, position, gap in zip(job_ids, positions, gaps):
-                self.earliest_start_times[job_id, position:] += gap
-
+        operation = scheduled_operation.operation
+        self.earliest_start_times[
+            operation.job_id, operation.position_in_job
+        ] = scheduled_operation.start_time
         self.initialize_features()
 
     def initialize_features(self):
         """Initializes the features based on the current state of the
         dispatcher."""
+        self._recompute_earliest_start_times()
         for feature_type in self.features:
             if feature_type == FeatureType.OPERATIONS:
                 self._update_operation_features()
@@ -205,6 +156,30 @@ class EarliestStartTimeObserver(FeatureObserver):
                 self._update_machine_features()
             elif feature_type == FeatureType.JOBS:
                 self._update_job_features()
+
+    def _recompute_earliest_start_times(self):
+        """Sets the earliest start time of every unscheduled operation.
+
+        The unscheduled operations of a job are chained after the job's last
+        scheduled operation, and none of them can start before one of its
+        machines becomes available."""
+        dispatcher = self.dispatcher
+        for job_id, next_operation_idx in enumerate(
+            dispatcher.job_next_operation_index
+        ):
+            start_time = dispatcher.job_next_available_time[job_id]
+            for operation in dispatcher.instance.jobs[job_id][
+                next_operation_idx:
+            ]:
+                machine_available_time = min(
+                    dispatcher.machine_next_available_time[machine_id]
+                    for machine_id in operation.machines
+                )
+                start_time = max(start_time, machine_available_time)
+                self.earliest_start_times[
+                    job_id, operation.position_in_job
+                ] = start_time
+                start_time += operation.duration
 
     def _update_operation_features(self):
         """Ravels the 2D array into a 1D array"""
